@@ -230,12 +230,10 @@ func (r *RPCReadResponse) DecodeFrom(d *types.Decoder) {
 	//
 	// NOTE: for maximum efficiency, we should be doing this for every slice,
 	// but in most cases the extra performance isn't worth the aliasing issues.
-	dataLen := int(d.ReadUint64())
-	if cap(r.Data) < dataLen {
-		r.Data = make([]byte, dataLen)
-	}
-	r.Data = r.Data[:dataLen]
-	d.Read(r.Data)
+	//
+	// NOTE: the length is untrusted; if the existing capacity does not
+	// suffice, the buffer is grown only as data actually arrives.
+	r.Data = readN(d, r.Data, d.ReadUint64())
 
 	types.DecodeSlice(d, &r.MerkleProof)
 }
@@ -341,4 +339,26 @@ func (r *RPCWriteResponse) EncodeTo(e *types.Encoder) {
 // DecodeFrom implements ProtocolObject.
 func (r *RPCWriteResponse) DecodeFrom(d *types.Decoder) {
 	copy(r.Signature[:], d.ReadBytes())
+}
+
+// readN reads n bytes from d into buf, reusing buf's capacity when it suffices
+// and otherwise growing it only as data actually arrives, so that an untrusted
+// length cannot trigger a huge allocation.
+func readN(d *types.Decoder, buf []byte, n uint64) []byte {
+	if n <= uint64(cap(buf)) {
+		buf = buf[:n]
+		d.Read(buf)
+		return buf
+	}
+	buf = buf[:0]
+	var chunk [1 << 14]byte
+	for n > 0 {
+		c := chunk[:min(n, uint64(len(chunk)))]
+		if _, err := d.Read(c); err != nil {
+			break
+		}
+		buf = append(buf, c...)
+		n -= uint64(len(c))
+	}
+	return buf
 }
